@@ -247,6 +247,27 @@ func readSeries(sh *tsdb.Shard, series string, hooks bool) ([]Pt, error) {
 	return out, fc.Err()
 }
 
+// indexedSeries lists the series keys the shard's index knows (the way the storage read path enumerates
+// series before it opens cursors).
+func indexedSeries(sh *tsdb.Shard) (map[string]bool, error) {
+	cur, err := sh.CreateSeriesCursor(context.Background(), tsdb.SeriesCursorRequest{}, nil)
+	if err != nil {
+		return nil, err
+	}
+	defer cur.Close()
+	out := map[string]bool{}
+	for {
+		row, err := cur.Next()
+		if err != nil {
+			return nil, err
+		}
+		if row == nil {
+			return out, nil
+		}
+		out[string(models.MakeKey(row.Name, row.Tags))] = true
+	}
+}
+
 // readTwo is the read operation of the scenarios: like a query it holds two cursors at once. It opens a
 // cursor over s1, then (while that cursor holds its TSM references) a cursor over the control series s2,
 // iterates both to the end and closes them; there are explicit scheduling points while cursors are open.
@@ -388,6 +409,11 @@ type Scenario struct {
 func (s Scenario) String() string { return "layout=" + s.Layout + ": " + strings.Join(s.Ops, " || ") }
 func (s Scenario) opsKey() string {
 	o := append([]string(nil), s.Ops...)
+	for i := range o {
+		if o[i] == "delete-all" {
+			o[i] = "delete" // same operation, other range: one signature
+		}
+	}
 	sort.Strings(o)
 	return strings.Join(o, "||")
 }
@@ -494,10 +520,11 @@ func pairScenarios(thorough bool) []Scenario {
 		return a, true
 	}
 	if thorough {
+		kinds := append(append([]string(nil), pairKinds...), "delete-all")
 		for _, lay := range layouts {
-			for i, a := range pairKinds {
-				for j := i; j < len(pairKinds); j++ {
-					b := pairKinds[j]
+			for i, a := range kinds {
+				for j := i; j < len(kinds); j++ {
+					b := kinds[j]
 					if lay == "cache" && (needsTSM(a) || needsTSM(b)) {
 						continue // nothing to compact without a TSM file
 					}
@@ -523,6 +550,9 @@ func pairScenarios(thorough bool) []Scenario {
 			}
 			out = append(out, Scenario{Layout: "tsm+cache", Ops: []string{a, b}})
 		}
+	}
+	for _, b := range []string{"close", "write", "snapshot", "compact-level"} {
+		out = append(out, Scenario{Layout: "tsm+cache", Ops: []string{"delete-all", b}}, Scenario{Layout: "tsm+cache", Ops: []string{b, "delete-all"}})
 	}
 	core := [][2]string{{"snapshot", "delete"}, {"delete", "read"}, {"read", "close"}, {"backup", "close"}, {"delete", "close"},
 		{"compact-level", "delete"}, {"compact-level", "read"}, {"compact-full", "snapshot"}}
@@ -710,6 +740,9 @@ func body(sc Scenario, x *vrt.Exec, res *result) {
 			}
 		case "delete":
 			op = func() error { return deleteRange(sh, delMin, delMax, s1) }
+		case "delete-all":
+			// removes the whole series: the delete then also cleans the index (DropSeries, SeriesIDSets.ForEach)
+			op = func() error { return deleteRange(sh, math.MinInt64, math.MaxInt64, s1) }
 		case "snapshot":
 			// one tick of Engine.compactCache: counted in snapWG like that goroutine
 			tickEnd := eng.VerifSnapTickBegin()
@@ -790,16 +823,27 @@ func body(sc Scenario, x *vrt.Exec, res *result) {
 		}
 		if x.S.Deadlock || x.S.StepCap {
 			if x.S.Deadlock {
-				// only the operation threads: which background goroutines woke up during the 24h horizon varies
-				var bl []string
-				for _, b := range x.S.Blocked {
-					for _, r := range recs {
+				// only the operation threads: which background goroutines woke up during the 24h horizon varies.
+				// class = where every unfinished operation is stuck (whatever else ran)
+				var bl, cause []string
+				for _, r := range recs {
+					for _, b := range x.S.Blocked {
 						if strings.HasPrefix(b, r.name+"(") {
 							bl = append(bl, dirRe.ReplaceAllString(b, "$$DIR"))
+							w := "blocked-outside-the-scheduler"
+							if i := strings.Index(b, "waiting at "); i >= 0 {
+								w = b[i+len("waiting at "):]
+							}
+							k := r.kind
+							if k == "delete-all" {
+								k = "delete"
+							}
+							cause = append(cause, k+"@"+w)
 						}
 					}
 				}
-				add("deadlock/"+sc.opsKey(), "nothing is enabled and not every operation finished within the fake-time horizon (24h): "+strings.Join(bl, "; "))
+				sort.Strings(cause)
+				add("deadlock/"+strings.Join(cause, "+"), "nothing is enabled and not every operation finished within the fake-time horizon (24h): "+strings.Join(bl, "; "))
 			} else {
 				add("livelock/"+sc.opsKey(), "step cap of 20000 scheduling steps reached")
 			}
@@ -929,6 +973,17 @@ func body(sc Scenario, x *vrt.Exec, res *result) {
 		}
 		posts = append(posts, post{when, c, r, pts})
 		ctl(when, cur)
+		// a series that has points must be known to the index (queries find series through the index)
+		if idx, err := indexedSeries(cur); err != nil {
+			add("read-error/"+when, "series cursor: "+errClass(err))
+		} else {
+			if len(pts) > 0 && !idx[s1] {
+				add("series-missing-from-index/"+when+"/"+sc.opsKey(), fmt.Sprintf("s1 has the points [%s] %s but the index does not list the series any more (index-driven queries cannot find them)", fmtPts(pts), when))
+			}
+			if !idx[s2] {
+				add("series-missing-from-index/"+when+"/"+sc.opsKey(), "the control series s2 is not listed by the index "+when)
+			}
+		}
 	}
 	if !closedNow {
 		rd("right-after", sh)
@@ -1018,6 +1073,8 @@ func body(sc Scenario, x *vrt.Exec, res *result) {
 				if t >= delMin && t <= delMax {
 					ops = append(ops, rop{name: r.name, call: r.call, ret: r.ret, kind: opDel, optional: failed})
 				}
+			case "delete-all":
+				ops = append(ops, rop{name: r.name, call: r.call, ret: r.ret, kind: opDel, optional: failed})
 			}
 			if r.observed {
 				o := rop{name: r.name, call: r.call, ret: r.ret, kind: opObs, phase: "concurrent-" + r.kind}
@@ -1268,11 +1325,18 @@ func branchWide(kind vrt.OpKind, label string) bool {
 // the scheduler (deadlock verdict); the watchdog is for goroutines blocked where the scheduler cannot see
 // them (a real mutex during open / close / the sequential epilogue), which would otherwise hang the worker.
 const hangTimeout = 60 * time.Second
+const freeHangTimeout = 20 * time.Second // a free-running execution takes well under a second
+
+var freeSeen = map[string]bool{}
 
 var hung atomic.Bool // an execution of this process hangs: stop exploring (every further one would cost the timeout)
 
 func hangResult(sc Scenario, prefix []int) (*vrt.Result, *result) {
 	hung.Store(true)
+	if os.Getenv("C39_DUMP") != "" {
+		buf := make([]byte, 4<<20)
+		fmt.Fprintf(os.Stderr, "HANG %s\n%s\n", sc, buf[:runtime.Stack(buf, true)])
+	}
 	return &vrt.Result{Choices: prefix}, &result{fatal: true, verdicts: []verdict{{"hang/" + sc.opsKey(),
 		"the execution did not finish within the real-time watchdog: goroutines are blocked outside the scheduler (e.g. on a mutex while the shard is opened, closed or read sequentially)"}}}
 }
@@ -1320,7 +1384,7 @@ func runFree(t *testing.T, sc Scenario) *result {
 	select {
 	case res := <-ch:
 		return res
-	case <-time.After(hangTimeout):
+	case <-time.After(freeHangTimeout):
 		_, res := hangResult(sc, nil)
 		return res
 	}
@@ -1528,7 +1592,7 @@ func TestCheck(t *testing.T) {
 				}
 				sig := attribute(sc, v, r)
 				if r == nil {
-					if strings.HasPrefix(sig, "deleted-point-returned/") && sc.has("delete") && sc.has("snapshot", "backup", "tar-backup") {
+					if strings.HasPrefix(sig, "deleted-point-returned/") && sc.has("delete", "delete-all") && sc.has("snapshot", "backup", "tar-backup") {
 						c.Extra("free_running_known_pattern", 1)
 						return
 					}
@@ -1621,13 +1685,21 @@ func TestCheck(t *testing.T) {
 				return false, err.Error()
 			}
 			if cs.Free {
+				// a free-running case has no schedule to replay: repeat the scenario body until the same class shows
+				// up again; once it did in this process, further replays of the class reuse that reproduction
+				key := cs.Scenario.String() + "|" + cs.Sig
+				obs := cs.Sig + " (free-running smoke pass: reproduced by repeating the scenario body, at most 300 times)"
+				if freeSeen[key] {
+					return true, obs
+				}
 				old := runtime.GOMAXPROCS(4)
 				defer runtime.GOMAXPROCS(old)
 				for k := 0; k < 300; k++ {
 					res := runFree(t, cs.Scenario)
 					for _, v := range res.verdicts {
 						if "free-running/"+attribute(cs.Scenario, v, nil) == cs.Sig {
-							return true, cs.Sig + " (free-running: reproduced within 300 repetitions)"
+							freeSeen[key] = true
+							return true, obs
 						}
 					}
 					if res.fatal {
